@@ -12,7 +12,9 @@ VARIABLES sealed, fileok, l, viol
 vars == <<sealed, fileok>>
 Failed(gs) == {g[1] : g \in {x \in gs : ~x[2]}}
 
-ShouldUnseal(a) == sealed /\ fileok /\ a.pass = "right" /\ a.cert /\ a.tls
+\* an injection comes over HTTPS with a verified client certificate, or (a.via = "aws") from the secrets manager the
+\* operator configured - then there is no request and no certificate to look at
+ShouldUnseal(a) == sealed /\ fileok /\ a.pass = "right" /\ (a.via = "aws" \/ (a.cert /\ a.tls))
 
 InjectGuards(e) ==
     {<<"G_C09_OnlyRight", e.out.ok => ShouldUnseal(e.args)>>,
